@@ -107,6 +107,18 @@ CHECKS["C18"] = dict(
     design_ref="DESIGN.md §5 C18",
     note="Trusted: Coq kernel + Reals axioms; libm sin/cos values and ceil results are model inputs (ceil re-validated in the model); exact checks in python Fractions.",
     technique="Coq proof over a hand-written subdivision model + bit-exact PSLG correspondence + exact per-mesh size validation")
+CHECKS["C10"] = dict(
+    category="proof",
+    text=("All length-unit tables of the sources (12 tables in 9 files) are regenerated into Coq on every run and proved equal "
+          "to the SI definitions times each tool's working-unit factor (finite domain, vm_compute); the dimensional scaling "
+          "law of the assembled element equations (stiffness x s, volume load x s^3, hence source-driven potentials x s^2) is "
+          "proved on the electrostatics model. Paired real runs: single-excitation problems of all three physics (planar and "
+          "axisymmetric) declared in two units with the same numbers must give the identical mesh, coordinates reported in the "
+          "declared unit, and nodal potentials / point values / block integrals / conductor and circuit results related by the "
+          "known powers of the length ratio."),
+    design_ref="DESIGN.md §5 C10",
+    note="Trusted: Coq kernel (+Reals axioms for the scaling law); regex translator tools/translate_tables.py; femmcli Lua route for the queries; tolerance 3e-5 relative.",
+    technique="Coq proof on tables regenerated from source + scaling-law proof on the assembly model + paired runs in two units")
 PENDING = {}
 def main():
     props = [json.loads(l) for l in open(os.path.join(V, "properties.jsonl"))]
